@@ -302,9 +302,13 @@ macro_rules! impl_pv {
                         None => return Err(PvErr::Setup("Poseidon1 table not supported for this field configuration".into())),
                     }
                 }
+                // recompose operations per table row: taken from the packing (default 1)
+                let rl = packing
+                    .npo_lanes(&p3_circuit::ops::NpoTypeId::recompose_with_coeff_lookups())
+                    .unwrap_or(1);
                 if npo.recompose && $d > 1 {
                     npo_prep.push(recompose_preprocessor::<Val<$sc>>(true));
-                    air_builders.extend(recompose_air_builders::<$sc, $d>(1, true));
+                    air_builders.extend(recompose_air_builders::<$sc, $d>(rl, true));
                 }
                 let r = catch(|| {
                     get_airs_and_degrees_with_prep::<$sc, Self::EF, $d>(
@@ -408,9 +412,13 @@ macro_rules! impl_pv {
                         None => return Err(PvErr::Setup("Poseidon1 table not supported for this field configuration".into())),
                     }
                 }
+                // recompose operations per table row: taken from the packing (default 1)
+                let rl = packing
+                    .npo_lanes(&p3_circuit::ops::NpoTypeId::recompose_with_coeff_lookups())
+                    .unwrap_or(1);
                 if npo.recompose && $d > 1 {
                     npo_prep.push(recompose_preprocessor::<Val<$sc>>(true));
-                    air_builders.extend(recompose_air_builders::<$sc, $d>(1, true));
+                    air_builders.extend(recompose_air_builders::<$sc, $d>(rl, true));
                 }
                 let r = catch(|| {
                     get_airs_and_degrees_with_prep::<$sc, Self::EF, $d>(
@@ -441,7 +449,9 @@ macro_rules! impl_pv {
                     <Self as PosSupport<$sc, $d>>::register_poseidon1(&mut prover, pc);
                 }
                 if npo.recompose && $d > 1 {
-                    prover.register_recompose_table::<$d>(true);
+                    for tp in p3_circuit_prover::batch_stark_prover::recompose_table_provers::<$sc, $d>(rl, true) {
+                        prover.register_table_prover(tp);
+                    }
                 }
                 if npo.debug_lookups {
                     prover = prover.with_debug_lookups();
